@@ -97,7 +97,8 @@ def run(tier):
         tags = ("id", "inst", "ext", "uuid", "my/id")
         vals = [G.gen_value(rng, cfg, depth=rng.choice([2, 3, 4]), width=3, tags=tags) for _ in range(nvals)]
         pairs = [render_pair(rng, v, cfg, trivs) for v in vals]
-        for opt in (0, 8):
+        # 8 = handler registry; +2 / +4 = default reader mode unwrap / error for tags without a handler
+        for opt in (0, 8, 10, 12):
             pl = K.read_lines([p for p, _ in pairs], opt)
             dl = K.read_lines([d for _, d in pairs], opt)
             pi, pm, pdiffs, pcr, _ = K.correspond(cfg, pl)
@@ -112,7 +113,8 @@ def run(tier):
                 if a is None or b is None:
                     continue
                 # the test handler `ext` stores the byte length of its operand's text, which trivia changes by design
-                norm = lambda t: re.sub(r"\(ext 7 \d+\)", "(ext 7 _)", K.strip_ranges(t.split(" calls=[")[0]))
+                # error positions move with the trivia by design: compare the class only
+                norm = lambda t: (" ".join(t.split()[:2]) if t.startswith("err ") else re.sub(r"\(ext 7 \d+\)", "(ext 7 _)", K.strip_ranges(t.split(" calls=[")[0])))
                 sa, sb = norm(a), norm(b)
                 if a.startswith("err DUPLICATE") and b.startswith("err DUPLICATE"):
                     continue  # handler results collided in a set: same verdict either way
@@ -128,15 +130,17 @@ def run(tier):
             inner = decorate(rng, G.gen_value(rng, cfg, depth=2, width=3, tags=("id", "fail", "failq", "ext", "inst")), cfg, trivs[:30])
             ddocs.append(b"[1 #_" + rng.choice([b"", b" "]) + inner + b" 2]")
             ddocs.append(b"#_ " + inner + b" :v")
-        out, cr = K.run_impl(cfg, K.read_lines(ddocs, 8))
-        rep.count("discarded-tags/" + cfg, len(ddocs))
-        for i, a in enumerate(out):
-            if a is None:
-                continue
-            if calls_names(a) or not a.startswith("ok "):
-                found = True
-                rep.finding("handler-in-discard", "a handler ran (or failed the read) inside a discarded form: %s" % a[-120:],
-                            {"kind": "read", "config": cfg, "opt": 8, "input_hex": C.hexs(ddocs[i]), "observed": a[:400]})
+        ddocs += [b"[1 #_#foo 2 3]", b"[1 #_#inst \"x\" 3]", b"[1 #_[#_#foo 0 2] 3]", b"#_ #unknown/tag {:a #other 1} :v", b"[#_ #fail 1 #_ #failq 2 3]"]
+        for dopt in (8, 10, 12):
+            out, cr = K.run_impl(cfg, K.read_lines(ddocs, dopt))
+            rep.count("discarded-tags/%s/opt%d" % (cfg, dopt), len(ddocs))
+            for i, a in enumerate(out):
+                if a is None:
+                    continue
+                if calls_names(a) or not a.startswith("ok "):
+                    found = True
+                    rep.finding("handler-in-discard", "a handler or the default reader mode acted on a tag inside a discarded form: %s" % a[-120:],
+                                {"kind": "read", "config": cfg, "opt": dopt, "input_hex": C.hexs(ddocs[i]), "observed": a[:400]})
         # trivia-only documents
         tdocs = [t for t in trivs if not t.startswith(b"#_")] + [b"".join(rng.choice(trivs) for _ in range(3)) for _ in range(100)] + [b"; no newline", b" ;x", b",", b""]
         tdocs = [t for t in tdocs if t]
